@@ -6,14 +6,23 @@ import (
 )
 
 func Shuffle(n int, swap func(i, j int)) {
+	if verifShuffle(n, swap) {
+		return
+	}
 	rand.Shuffle(n, swap)
 }
 
 func FastRand(n int) int {
+	if v, ok := verifRand(n); ok {
+		return v
+	}
 	return rand.IntN(n)
 }
 
 func RandomBytes() []byte {
+	if b := verifRandomBytes(); b != nil {
+		return b
+	}
 	val := make([]byte, 24)
 	binary.BigEndian.PutUint64(val[0:8], rand.Uint64())
 	binary.BigEndian.PutUint64(val[8:16], rand.Uint64())
